@@ -86,6 +86,9 @@ func (w *c05Wire) SetWriteDeadline(t time.Time) error { return nil }
 
 var c05WireSeq atomic.Int64
 
+// dispatches currently inside HandlePacket (all pumps), and the maximum seen since reset
+var c05InFlight, c05InFlightMax, c05Overlapped atomic.Int64
+
 // c05Pump accepts a fresh unauthenticated connection from remote ("" = unique address)
 // carrying data and dispatches every packet that decodes, the way the adapter's read
 // loop does (ReadPacket on the connection's own stream -> HandlePacket), then ends the
@@ -116,7 +119,14 @@ func c05Pump(n *miniNode, remote string, data []byte) (res c05PumpRes) {
 				return
 			}
 			res.Branch = c05Branch(pkt.PacketType)
+			if k := c05InFlight.Add(1); k > 1 {
+				c05Overlapped.Add(1) // this dispatch began while another one was inside HandlePacket
+				if k > c05InFlightMax.Load() {
+					c05InFlightMax.Store(k) // (racy max: an under-estimate at worst)
+				}
+			}
 			_ = n.SM.HandlePacket(&types.StreamPacket{ConnectionID: stc.ID, Packet: pkt, Timestamp: time.Now()})
+			c05InFlight.Add(-1)
 			res.Dispatched++
 		}
 	}()
@@ -669,7 +679,7 @@ func TestVerifC05SlowReader(t *testing.T) {
 				run.Violation("C05:slow-reader|other-connection-blocked|hostile="+hk.name+"|victim-step="+sname, map[string]any{
 					"hostile_packet_hex": fmt.Sprintf("%x", hk.frame), "victim_step": sname, "victim_goroutine_state": res.State, "victim_parked_at": res.Frames,
 					"hostile_write_still_parked": stillParked,
-					"decided_by": "party 2's goroutine in the same lock wait with an identical stack in 3 dumps 100 ms apart while the server's write to party 1 (which never reads) is parked; it can only proceed when party 1 decides to read"})
+					"decided_by":                 "party 2's goroutine in the same lock wait with an identical stack in 3 dumps 100 ms apart while the server's write to party 1 (which never reads) is parked; it can only proceed when party 1 decides to read"})
 			case res.Returned:
 				if stillParked {
 					run.Count("victim_sequences_completed_while_hostile_write_parked", 1)
@@ -707,4 +717,111 @@ func TestVerifC05SlowReader(t *testing.T) {
 	if run.Violations() == 0 {
 		run.Floor("victim_sequences_completed_while_hostile_write_parked", 10)
 	}
+}
+
+// ---------------------------------------------------------------------------------
+// (4) several hostile peers at once: the same refused packets dispatched concurrently
+// ---------------------------------------------------------------------------------
+
+func TestVerifC05Storm(t *testing.T) {
+	vk.Quiet()
+	run := vk.Start(t, "C05", "storm")
+	defer run.Finish()
+	run.Rule("8 goroutines, each the read loop of its own stream of fresh unauthenticated connections on one server, dispatch the same kind of refused/ignored packet at the same time (phases: the 10 retention kinds, a sweep over all 256 command types in both packet directions, a seeded mix), bursts of 40 packets per connection; oracle: no panic in any dispatch (recovered) and no process-fatal error (concurrent map writes, unlock of unlocked mutex, ...: attributed by the runner to the WAL line of the phase); distinct = phase; non-trivial = at least 50 dispatches of the phase began while another dispatch was inside HandlePacket (a phase that did not get there is repeated, at most 3 times)")
+	const G = 8
+	const burst = 40
+	perPhase := run.Pick(480, 6000) // packets per goroutine and phase
+	node := c05NewNode(t)
+	defer node.Close()
+	r := run.Rand("mix")
+	kinds := c05Kinds(fmt.Sprintf("st%d", run.Seed))
+	kinds = append(kinds,
+		c05Kind{"cmd-type-sweep", func(i int) []byte {
+			return gen.Frame([]byte{0x10, 0x11}[(i/256)%2], gen.CmdJSON(i%256, fmt.Sprintf("sw-%d", i), `{}`))
+		}},
+		c05Kind{"resp-no-handler", func(i int) []byte {
+			return gen.Frame(0x11, gen.CmdJSON(130+i%100, fmt.Sprintf("rn-%d", i), `{"success":false}`))
+		}},
+	)
+	mixSeed := r.Int63()
+	kinds = append(kinds, c05Kind{"seeded-mix", func(i int) []byte {
+		x := uint64(i)*0x9E3779B97F4A7C15 + uint64(mixSeed)
+		k := kinds[int(x>>33)%(len(kinds)-1)]
+		return k.frame(i)
+	}})
+	var stop atomic.Bool
+	for pi, k := range kinds {
+		if stop.Load() {
+			break
+		}
+		run.Case("storm|phase="+k.name, map[string]any{"goroutines": G, "packets_per_goroutine": perPhase, "burst": burst,
+			"what": "the same kind of refused pre-auth packet dispatched concurrently from " + fmt.Sprint(G) + " streams of fresh connections"})
+		c05InFlightMax.Store(0)
+		c05Overlapped.Store(0)
+		for attempt := 0; attempt < 4 && c05Overlapped.Load() < 50 && !stop.Load(); attempt++ { // repeat a phase that did not overlap (bounded)
+			if attempt > 0 {
+				run.Count("phase_repeats", 1)
+			}
+			var wg sync.WaitGroup
+			start := make(chan struct{})
+			for g := 0; g < G; g++ {
+				g := g
+				wg.Add(1)
+				go func() {
+					defer wg.Done()
+					<-start
+					seq := ((pi*4+attempt)*G + g) * 1000003
+					for sent := 0; sent < perPhase && !stop.Load(); {
+						var data []byte
+						for j := 0; j < burst; j++ {
+							data = append(data, k.frame(seq)...)
+							seq++
+						}
+						res := c05Pump(node, fmt.Sprintf("10.230.%d.%d:%d", g, pi, 10000+sent%50000), data)
+						run.Count("storm_dispatches", int64(res.Dispatched))
+						run.Eval(res.Dispatched)
+						sent += burst
+						if strings.HasPrefix(res.Panic, "harness:") {
+							run.Count("harness_errors", 1)
+							run.Observe("harness_error", res.Panic)
+							return
+						}
+						if res.Panic != "" {
+							run.Violation("C05:storm|panic|phase="+k.name+"|branch="+res.Branch+"|"+c05NumRe.ReplaceAllString(c05Clip(res.Panic, 60), "N")+"|at="+res.Stack,
+								map[string]any{"panic": res.Panic, "phase": k.name, "goroutines": G})
+							stop.Store(true)
+							return
+						}
+					}
+				}()
+			}
+			done := make(chan struct{})
+			go func() { wg.Wait(); close(done) }()
+			close(start)
+			wd := time.NewTimer(240 * time.Second)
+			select {
+			case <-done:
+				wd.Stop()
+			case <-wd.C:
+				run.Count("watchdog", 1)
+				run.Observe("watchdog_phase", k.name)
+				stop.Store(true)
+				run.Floor("completed", 1)
+				return
+			}
+		}
+		run.Max("max_concurrent_dispatches", c05InFlightMax.Load())
+		run.Count("phases", 1)
+		run.Count("overlapping_dispatches", c05Overlapped.Load())
+		if c05Overlapped.Load() >= 50 {
+			run.Count("phases_with_concurrent_dispatches", 1)
+			run.Distinct(k.name)
+		}
+	}
+	if !stop.Load() {
+		run.Count("completed", 1)
+	}
+	run.Floor("completed", 1)
+	run.Floor("phases_with_concurrent_dispatches", int64(len(kinds)-2))
+	run.Floor("storm_dispatches", int64(len(kinds)*G*perPhase*9/10))
 }
